@@ -689,7 +689,33 @@ def _bounded_variants(tier, seed):
                        "unrealisable quadruples with a1^2+b1^2<0.98; oracle: no exception, D>=0, sum D*360/N = 1 (1e-6), each row equals the result computed alone")}
 
 
-BOUNDED = [Bounded("estimators.compiled", _bounded_variants, "validity, returns-without-raising and batch independence of the four variants as they run")]
+def _bounded_newton_batch_bits(tier, seed):
+    """recorded finding (known_key C05-batch-float-nonconverging): on an unrealisable quadruple inside the unit disc the compiled MEM2-Newton estimate
+    of a row computed in a batch of two differs from the same row computed alone (last-bit differences amplified by the non-converging iteration)"""
+    import numpy as np
+    from ocean_science_utilities.wavespectra.estimators.estimate import estimate_directional_distribution as est
+    q0 = [0.6312672570054401, 0.07140273595466981, 0.6056061028216168, 0.1387758834666472]
+    q1 = [0.1139165884539013, 0.757375170744544, -0.7789221416860909, -0.6700507784574791]
+    cases = [(36, q0, q1), (8, q0, q1), (24, q0, q1), (36, q0, [v * 0.999 for v in q1]), (36, q1, q1), (72, q0, q1)]
+    failures, evals = [], 0
+    for N, first, second in cases:
+        d = np.linspace(0, 360, N, endpoint=False)
+        for sm in ("newton", "scipy"):
+            evals += 1
+            pair = est(*[np.array([first[k], second[k]]) for k in range(4)], d, "mem2", solution_method=sm)
+            alone = est(*[np.array([second[k]]) for k in range(4)], d, "mem2", solution_method=sm)
+            if not np.allclose(pair[1], alone[0], rtol=1e-9, atol=1e-12):
+                failures.append({"kind": f"mem2/{sm}.batch_independence", "known_key": "C05-batch-float-nonconverging",
+                                 "inputs": {"N": N, "first_row": first, "second_row": second, "solution_method": sm, "a1^2+b1^2_of_second_row": second[0] ** 2 + second[1] ** 2},
+                                 "max_abs_difference_per_degree": float(np.abs(pair[1] - alone[0]).max()), "peak_density_per_degree": float(alone[0].max())})
+    return {"evaluations": evals, "distinct": evals, "failures": failures,
+            "domain": "estimate_directional_distribution(mem2, newton | scipy) on compiled code: the second row of a batch of two against the same row alone, one recorded "
+                      "unrealisable quadruple (a1^2+b1^2 = 0.587) and neighbours, N in {8, 24, 36, 72}; oracle: equal within rtol 1e-9"}
+
+
+BOUNDED = [Bounded("estimators.compiled", _bounded_variants, "validity, returns-without-raising and batch independence of the four variants as they run"),
+           Bounded("batch_independence_nonconverging_newton", _bounded_newton_batch_bits,
+                   "recorded input on which the compiled Newton variant is not batch independent in floating point (known finding C05-batch-float-nonconverging)")]
 
 CONTRACTS = [distribution, cholesky, solver, direction_increment, estimate, as_2d, round_trip]
 TRUSTED = []
